@@ -41,6 +41,12 @@ structure DState where
       threshold in the next heartbeat (announced by the harness with `c hdrslots <n>`) -/
   hdrSlots : Nat := 1000000000
 
+/-- the address argument as the model itself parses the request string, and a mark for the output
+    line when the real parser classified the string differently -/
+def addrMark (s : State) (tok : String) : State.AddrArg × String :=
+  let (a, ok) := addrArgChecked s.network tok
+  (a, if ok then "" else " !addr")
+
 def statusCode : Watchdog.Status → Nat
   | .notEnoughData => 0 | .ok => 1 | .ahead => 2 | .behind => 3
 
@@ -260,11 +266,12 @@ def stepCanister (d : DState) (ws : List String) : DState × String :=
               thrRaisedWhilePaused := d.thrRaisedWhilePaused ||
                 (s.utxos.ingesting.isSome && s'.unstable.thr > s.unstable.thr) }, "-")
   | ["call", ep, net, avail, ins, tok, cc, start], some s =>
-    let (s', text, acc) := endpointCall d s ep (parseNetInRequest net) avail.toNat! ins.toNat! (parseAddrArg tok) cc.toNat! start.toNat!
+    let (addrArg, amark) := addrMark s tok
+    let (s', text, acc) := endpointCall d s ep (parseNetInRequest net) avail.toNat! ins.toNat! addrArg cc.toNat! start.toNat!
     -- specification column: the same call with the network the spelling NAMES (C14/C19: the
     -- generated conversion table must not matter)
-    let (_, textN, accN) := endpointCall d s ep (parseNetByName net) avail.toNat! ins.toNat! (parseAddrArg tok) cc.toNat! start.toNat!
-    ({ d with st := some s' }, s!"{text} accepted={acc} unchanged=1 ## {textN} accepted={accN} unchanged=1")
+    let (_, textN, accN) := endpointCall d s ep (parseNetByName net) avail.toNat! ins.toNat! addrArg cc.toNat! start.toNat!
+    ({ d with st := some s' }, s!"{text} accepted={acc} unchanged=1{amark} ## {textN} accepted={accN} unchanged=1")
   | ["sendtx", net, avail, payload], some s =>
     let bytes := if payload == "-" then [] else hexToBytes payload
     -- well-formedness decided by the model's own consensus decoder (64-bit `usize`: native harness)
@@ -392,13 +399,16 @@ def stepCanister (d : DState) (ws : List String) : DState × String :=
   | ["q", "info"], some s => (d, showInfo s.blockchainInfo)
   | ["q", "utxos", tok, filter, lim], some s =>
     if (s.guard (envOf d) s.network true).isSome then (d, "trap") else
-    (d, showUtxosResult (s.getUtxos (parseAddrArg tok) (parseFilter filter) lim.toNat!))
+    let (addrArg, amark) := addrMark s tok
+    (d, showUtxosResult (s.getUtxos addrArg (parseFilter filter) lim.toNat!) ++ amark)
   | ["q", "utxosall", tok, filter, lim], some s =>
     if (s.guard (envOf d) s.network true).isSome then (d, "trap") else
-    (d, utxosAll s (parseAddrArg tok) (parseFilter filter) lim.toNat!)
+    let (addrArg, amark) := addrMark s tok
+    (d, utxosAll s addrArg (parseFilter filter) lim.toNat! ++ amark)
   | ["q", "balance", tok, c], some s =>
     if (s.guard (envOf d) s.network true).isSome then (d, "trap") else
-    (d, showBalance (s.getBalance (parseAddrArg tok) ((optNat c).getD 0)))
+    let (addrArg, amark) := addrMark s tok
+    (d, showBalance (s.getBalance addrArg ((optNat c).getD 0)) ++ amark)
   | ["q", "headers", a, b], some s =>
     if (s.guard (envOf d) s.network true).isSome then (d, "trap") else
     -- specification (C07): one header per height of the full best chain (stable chain ++ heaviest branch)
